@@ -35,10 +35,12 @@ denv = dict(env)
 if uses_hooks:
     denv['RUSTFLAGS'] = '--cfg astrolabe_verif'
 shutil.copy(demo, os.path.join(wt, 'tests', 'seed_demo.rs'))
-rc1, out1 = run('cargo test --offline --test seed_demo 2>&1 | tail -15', env=denv)
+rel = ' --release' if os.environ.get('SEED_DEMO_RELEASE') == '1' else ''
+res['demo_profile'] = 'release' if rel else 'debug'
+rc1, out1 = run('cargo test --offline%s --test seed_demo 2>&1 | tail -15' % rel, env=denv)
 res['demo_fails_with_change'] = 'test result: FAILED' in out1 or 'error: test failed' in out1
 run(['git', 'apply', '-R', patch])
-rc2, out2 = run('cargo test --offline --test seed_demo 2>&1 | tail -15', env=denv)
+rc2, out2 = run('cargo test --offline%s --test seed_demo 2>&1 | tail -15' % rel, env=denv)
 res['demo_passes_without_change'] = 'test result: ok' in out2 and 'FAILED' not in out2
 os.remove(os.path.join(wt, 'tests', 'seed_demo.rs'))
 clean()
